@@ -9,6 +9,7 @@ RFC defaults the statement lists.
 
 from __future__ import annotations
 
+import copy
 import random
 
 from vlib import exa, gen_text as gt, norm
@@ -232,6 +233,18 @@ def run_shard(desc):
             # (IPv6 /32 routes were left out until the NetMask fix; now included)
             text, intent = gt.gen_route(r, afi, KIND[safi], rich=0.55, with_pathid=r.random() < 0.4, allow_self=(afi == 1))
             routes.append((text, intent))
+        # siblings: same attributes, another prefix and another next hop, queued in the same batch - the next hop is
+        # not part of the attribute text and a grouping which forgets it sends one route with the other's next hop
+        for t, i in list(routes):
+            if r.random() < 0.35 and i['nexthop'] != 'self':
+                _, i2 = gt.gen_route(r, i['afi'], KIND[i['safi']], rich=0.0, with_pathid=False, allow_self=False)
+                head = f'route {i["prefix"]} next-hop {i["nexthop"]}'
+                bits = int(i2['prefix'].split('/')[1]) + 24 * len(i.get('labels', ())) + (64 if i.get('rd') else 0)
+                if t.startswith(head) and i2['nexthop'] != i['nexthop'] and bits <= 255:  # the NLRI length octet counts bits
+                    sib = copy.deepcopy(i)
+                    sib['prefix'], sib['nexthop'] = i2['prefix'], i2['nexthop']
+                    routes.append((f'route {i2["prefix"]} next-hop {i2["nexthop"]}' + t[len(head):], sib))
+                    res.count('sibling-routes')
         # one route per prefix: a later definition of the same route replaces the earlier one by design,
         # and distinct prefixes keep the comparison unambiguous
         seen = {}
